@@ -918,15 +918,19 @@ class vPeriod(TimeBase):
             raise ValueError('end_or_duration MUST be a datetime, '
                              'date or timedelta instance')
         by_duration = 0
-        if isinstance(end_or_duration, timedelta):
-            by_duration = 1
-            duration = end_or_duration
-            end = start + duration
-        else:
-            end = end_or_duration
-            duration = end - start
-        if start > end:
-            raise ValueError("Start time is greater than end time")
+        try:
+            if isinstance(end_or_duration, timedelta):
+                by_duration = 1
+                duration = end_or_duration
+                end = start + duration
+            else:
+                end = end_or_duration
+                duration = end - start
+            if start > end:
+                raise ValueError("Start time is greater than end time")
+        except TypeError as e:
+            # date and datetime or offset-naive and offset-aware datetimes
+            raise ValueError("Start and end MUST be of the same kind") from e
 
         self.params = Parameters({'value': 'PERIOD'})
         # set the timezone identifier
